@@ -63,7 +63,10 @@ def index_expr(rng, shape):
         if r < .4 and not used_list:
             sel.append(rng.randrange(-n, n)); has_int = True
         elif r < .55 and not used_list and not has_int:
-            sel.append([rng.randrange(-n, n) for _ in range(rng.randint(1, 3))]); used_list = True
+            # integer-array index: positions drawn from a small pool so that repeats are frequent, each written
+            # either as k or as its negative alias k - n (the same element selected through different spellings)
+            pool = [rng.randrange(n) for _ in range(rng.randint(1, 2))]
+            sel.append([(q if rng.chance(.5) else q - n) for q in (rng.pick(pool) for _ in range(rng.randint(1, 4)))]); used_list = True
         else:
             step = rng.pick([1, 1, 2, -1, -2, 3])
             sel.append(slice(rng.pick([None, 0, 1, -1, -2, n]), rng.pick([None, 0, n, -1, 1, -n - 1]), step))
@@ -71,6 +74,23 @@ def index_expr(rng, shape):
         if rng.chance(.15): break
     if used_list and has_int:
         sel = [s for s in sel if not isinstance(s, int) or isinstance(s, bool)]
+    return tuple(sel)
+
+
+def index_expr_list(rng, shape):
+    """an index expression that certainly holds an integer-array index with aliased / repeated entries,
+    surrounded by slices / ellipsis / newaxis"""
+    ax = rng.randrange(len(shape))
+    n = shape[ax]
+    pool = [rng.randrange(n) for _ in range(rng.randint(1, 2))]
+    lst = [(q if rng.chance(.5) else q - n) for q in (rng.pick(pool) for _ in range(rng.randint(2, 4)))]
+    sel = []
+    for k, m in enumerate(shape):
+        if k == ax: sel.append(lst)
+        elif rng.chance(.25): sel.append(None); sel.append(slice(None, None, rng.pick([1, -1, 2])))
+        else: sel.append(slice(rng.pick([None, 0, 1]), rng.pick([None, m, -1]), rng.pick([1, 1, -1, 2])))
+    if rng.chance(.3) and ax + 1 < len(shape):
+        sel = sel[:ax + 1] + [Ellipsis]
     return tuple(sel)
 
 
@@ -108,7 +128,7 @@ def gen_basic(rng, op, malformed=False):
         return [L(rshape(rng), 'pos')], []
     if op == 'slice':
         s = rshape(rng, 1, 4, 4)
-        sel = index_expr(rng, s)
+        sel = index_expr_list(rng, s) if rng.chance(.4) else index_expr(rng, s)
         if malformed: sel = sel + tuple(0 for _ in range(5))
         return [L(s)], [show_sel(sel)]
     if op in ('concat', 'stack'):
@@ -199,6 +219,14 @@ OPS_NN = ['relu', 'leaky_relu', 'selu', 'tanh', 'sigmoid', 'softmax', 'log_softm
 
 def geom1(rng, malformed=False):
     """(L, k, s, p, d) with at least one window"""
+    if not malformed and rng.chance(.25):
+        # stride >= kernel with dilation > 1: the dilated windows interleave (taps of different windows share cells)
+        k, d = rng.randint(2, 3), rng.randint(2, 3)
+        s = rng.pick([k, k + 1, 2 * k])
+        p = rng.randint(0, 1)
+        L = d * (k - 1) + 1 + s * rng.randint(1, 2) - 2 * p + rng.randint(0, 1)
+        if L >= 1 and L + 2 * p >= d * (k - 1) + 1:
+            return L, k, s, p, d
     for _ in range(50):
         L, k, s, d = rng.randint(1, 7), rng.randint(1, 4), rng.randint(1, 4), rng.randint(1, 3)
         p = rng.randint(0, max(0, (d * (k - 1)) // 2 + 1))
